@@ -20,6 +20,9 @@ async def ticks(n=3):
         await asyncio.sleep(TICK)
 
 
+HARNESS_BROKEN = None  # set when the harness's own introspection failed (never a verdict)
+
+
 class Probe:
     """records what the pool's tasks and callbacks observe"""
 
@@ -54,8 +57,15 @@ class Probe:
             self.running -= 1
 
     def snapshot(self, task_id):
+        # called from inside user callbacks the pool runs: a failure of the harness's own introspection (a private attribute
+        # renamed by a refactoring) must never raise into the pool - it is recorded and turns the scenario into a crash (exit 2)
+        global HARNESS_BROKEN
         p = self.pool
-        return (task_id in p._tasks_running, task_id in p._tasks_cancelled, task_id in p._tasks_ended)
+        try:
+            return (task_id in p._tasks_running, task_id in p._tasks_cancelled, task_id in p._tasks_ended)
+        except AttributeError as e:
+            HARNESS_BROKEN = f"{type(e).__name__}: {e}"
+            return (None, None, None)
 
     def on_end(self, task_id):
         self.end_cb.append(task_id)
